@@ -95,7 +95,30 @@ def check_lookup(case, rec):
                 raise Violation('tail-map', f'{name} {where}: T[i]+remainder is another map than T[i]+tail', where='tail:' + where)
             if len(set(kinds)) == 2: mixed = True
             rec.label('seq:' + type(T).__name__)
-        # elements of the base topology that were dropped by a take must not be found (same dimension only)
+        # a zero-length window T[k:k] contains nothing: contains() is False and the lookups raise ValueError (the documented outcome for an absent chain)
+        if len(T) and case['elems']:
+            k = case['elems'][0] % (len(T) + 1)
+            E = T[k:k]
+            chain = T[case['elems'][-1] % len(T)]
+            where = f'{type(T).__name__}[k:k]->{type(E).__name__}'
+            if len(E) != 0:
+                raise Violation('length', f'{name} {where}: empty slice has length {len(E)}', where='empty-slice')
+            try:
+                found = E.contains(chain)
+            except Exception as ex:
+                raise Violation('contains-raised', f'{name} {where}: contains() of an empty slice raised {type(ex).__name__}: {ex}', where='empty-slice')
+            if found:
+                raise Violation('contains-wrong', f'{name} {where}: an empty slice contains T[i]', where='empty-slice')
+            for meth in ('index', 'index_with_tail'):
+                try:
+                    getattr(E, meth)(chain)
+                except ValueError:
+                    pass
+                except Exception as ex:
+                    raise Violation('index-raised', f'{name} {where}: {meth}() of an empty slice raised {type(ex).__name__}: {ex} instead of ValueError', where='empty-slice')
+                else:
+                    raise Violation('index-wrong', f'{name} {where}: {meth}() of an empty slice did not raise', where='empty-slice')
+            rec.label('empty-slice:' + type(E).__name__)
     if applied and applied[-1][0] == 'take' and topo.ndims == topo0.ndims:
         try:
             prev, _ = gentopo.apply_ops(topo0, x, applied[:-1])
